@@ -4,6 +4,8 @@ import (
 	"errors"
 	"sync"
 	"time"
+
+	"github.com/0xReLogic/Helios/internal/vhook"
 )
 
 // State represents the circuit breaker state
@@ -108,6 +110,7 @@ func (cb *CircuitBreaker) Execute(fn func() error) error {
 		return err
 	}
 
+	vhook.Yield("cb.exec.count")
 	// Increment request count for half-open state
 	cb.mutex.Lock()
 	if cb.state == StateHalfOpen {
@@ -134,6 +137,7 @@ func (cb *CircuitBreaker) Call(fn func() error) error {
 
 // beforeRequest checks if the request can proceed with optimized locking
 func (cb *CircuitBreaker) beforeRequest() error {
+	vhook.Yield("cb.before.enter")
 	now := time.Now()
 
 	// Fast path: read-only check for most common case (StateClosed)
@@ -148,6 +152,7 @@ func (cb *CircuitBreaker) beforeRequest() error {
 
 		// Only acquire write lock if reset is needed
 		if needsReset {
+			vhook.Yield("cb.before.reset")
 			cb.mutex.Lock()
 			// Double-check after acquiring write lock
 			if cb.lastFailureTime.Add(cb.interval).Before(now) {
@@ -164,6 +169,7 @@ func (cb *CircuitBreaker) beforeRequest() error {
 		cb.mutex.RUnlock()
 
 		if canRetry {
+			vhook.Yield("cb.before.upgrade")
 			cb.mutex.Lock()
 			// Double-check state hasn't changed
 			if cb.state == StateOpen && cb.nextAttempt.Before(now) {
@@ -181,6 +187,7 @@ func (cb *CircuitBreaker) beforeRequest() error {
 	if state == StateHalfOpen {
 		atLimit := cb.requestCount >= cb.maxRequests
 		cb.mutex.RUnlock()
+		vhook.Yield("cb.before.half")
 
 		if atLimit {
 			return ErrTooManyRequests
@@ -194,6 +201,7 @@ func (cb *CircuitBreaker) beforeRequest() error {
 
 // afterRequest updates the circuit breaker state after a request
 func (cb *CircuitBreaker) afterRequest(success bool) {
+	vhook.Yield("cb.after.enter")
 	cb.mutex.Lock()
 	defer cb.mutex.Unlock()
 
